@@ -55,7 +55,7 @@
 (***************************************************************************)
 EXTENDS Naturals, Sequences, FiniteSets
 
-MaxId == 8
+MaxId == 4
 PC == 1..MaxId
 
 Val(c) == 100 + c
